@@ -238,6 +238,8 @@ func init() {
 
 	issue.Hard(OverriddenNotFound, `expected %{label} to override an inherited %{feature_type}, but no such %{feature_type} was found`)
 
+	issue.Hard(OverrideTypeMismatch, `%{member} attempts to override %{label} with a type that does not match`)
+
 	// TRANSLATOR 'override => true' is a puppet syntax and should not be translated
 	issue.Hard(OverrideIsMissing, `%{member} attempts to override %{label} without having override => true`)
 
